@@ -193,8 +193,26 @@ def gen_dispatch_sched(rng, tier):
                "max_steps": 20000, "_meta": {"style": "dispatch-sched"}}
 
 
+def gen_sizes():
+    """requests at the size limits of the request port (RFC 2347: at most 512 octets): long file names, many options"""
+    cfg = {"default_timeout_ticks": 2048, "max_timeout": 30, "max_retries": 1, "max_block_size": 65464, "wrap": 0}
+    for total in (100, 509, 510, 511, 512):
+        for mode, opts in (("octet", []), ("netascii", []), ("octet", [["blksize", "8"]]),
+                           ("octet", [["tsize", "0"], ["timeout", "2"]])):
+            fixed = len(T.rrq_packet("", mode, opts))
+            name = ("n" * 600)[:total - fixed]
+            dg = T.rrq_packet(name, mode, opts)
+            assert len(dg) == total
+            for hs in ([{"accept": [name], "result": dict(SMALL)}],
+                       [{"accept": ["other"], "result": dict(ERR)}, {"accept": None, "result": dict(SMALL)}]):
+                yield {"cfg": cfg, "datagram": dg.hex(), "handlers": hs, "script": [["pkt", 0, 0, 0, T.ack(1)]],
+                       "pktinfo": True, "sockname": ["::", 69, 0, 0], "dst": "::1",
+                       "_meta": {"style": "dispatch-size-%d" % total, "handler": "stream"}}
+
+
 def gen(rng, tier, mult=1):
     yield from gen_dispatch_sched(rng, tier)
+    yield from gen_sizes()
     n = (1500 if tier == "quick" else 20000) * mult
     names = ["f", "g", "boot/x", "", "F"]
     for i in range(n):
